@@ -331,7 +331,7 @@ class BatchSpy:
         if isinstance(random_state, np.random.RandomState) and not isinstance(random_state, SimRandomState):
             key = id(random_state)
             if key not in h._rs_wrappers:
-                h._rs_wrappers[key] = (random_state, SimRandomState(random_state, h.world.log, h.sched_plan, h.world.rng,
+                h._rs_wrappers[key] = (random_state, SimRandomState(random_state, h.world.log, h.sched_plan, h.rng,
                                                                     h.pairs, h.batch_size, result=h.world.result))
             rs = h._rs_wrappers[key][1]
         h.world.log.emit("EPOCH", epoch=h.epoch, n=int(len(X)))
@@ -359,8 +359,9 @@ class BatchSpy:
 class ModelHarness:
     """All instance-level spies of one estimator object."""
 
-    def __init__(self, world, model, family, sched_plan=None, pairs=(), wrap_gemini=True):
+    def __init__(self, world, model, family, sched_plan=None, pairs=(), wrap_gemini=True, rng=None):
         self.world = world
+        self.rng = rng if rng is not None else world.rng
         self.model = model
         self.family = family
         self.sched_plan = sched_plan or []
